@@ -236,3 +236,20 @@ void h_uc_strings_bounded(void)
 	__CPROVER_assert(0, "canary");
 #endif
 }
+
+/* ---- uc.kind: character classes used by the word motions and ^W (C07, C08) ---- */
+void h_uc_kind(void)
+{
+	char s[2];
+	s[0] = nondet_char(); s[1] = 0;
+	unsigned char c = (unsigned char) s[0];
+	int blank = c == ' ' || c == '\t' || c == '\n' || c == '\v' || c == '\f' || c == '\r';
+	int word = (c >= 'a' && c <= 'z') || (c >= 'A' && c <= 'Z') || (c >= '0' && c <= '9') || c == '_' || c > 0x7f;
+	int k = uc_kind(s);
+	H_ASSERT(k == (blank ? 0 : word ? 1 : 2), "uc_kind: 0 for blanks, 1 for letters, digits, underscore and every non-ASCII character, 2 for punctuation (the terminator counts as punctuation)");
+	H_ASSERT(!!uc_isspace(s) == blank, "uc_isspace: exactly the ASCII blanks");
+	H_ASSERT(!!uc_isprint(s) == (c > 0x7f || (c >= 0x20 && c < 0x7f)), "uc_isprint: printable ASCII and every non-ASCII lead byte");
+#ifdef CANARY
+	__CPROVER_assert(0, "canary");
+#endif
+}
